@@ -277,7 +277,7 @@ def run(F, rep, tier, allfacts):
             continue
         n, f = H[op]
         rs = set()
-        for g in cg.reachable([n], stop=lambda x: not x.startswith("fuel_vm::")):
+        for g in cg.reachable([n], stop=lambda x: not x.lstrip("<").startswith("fuel_vm::")):
             gf = cg.fns.get(g)
             if gf:
                 for i, j, p, rv, line in assignments(gf):
